@@ -7,11 +7,12 @@ package main
 // Events are stamped with one global atomic sequence number at the moment they are logged.
 
 import (
-	"errors"
 	"context"
+	"errors"
 	"flag"
 	"fmt"
 	"math"
+	"os"
 	"runtime"
 	"strings"
 	"sync"
@@ -44,16 +45,16 @@ type rejectedProposal struct {
 }
 
 type rt struct {
-	rejectedSeen []rejectedProposal // proposals the consumer rejected: the (Byzantine) peers vote for them all the same
-	panicAtCommit int64 // the n-th commit callback of the run panics (0: never)
-	lingerMs   int32
-	slowSeq    int64
-	rejectSalt int
-	rejecting int32 // some of the peers' proposals are rejected by the consumer (off during the final probes)
-	cl   *cluster
-	adv  *adversary
-	main *leanhelix.MainLoop
-	me   primitives.MemberId
+	rejectedSeen  []rejectedProposal // proposals the consumer rejected: the (Byzantine) peers vote for them all the same
+	panicAtCommit int64              // the n-th commit callback of the run panics (0: never)
+	lingerMs      int32
+	slowSeq       int64
+	rejectSalt    int
+	rejecting     int32 // some of the peers' proposals are rejected by the consumer (off during the final probes)
+	cl            *cluster
+	adv           *adversary
+	main          *leanhelix.MainLoop
+	me            primitives.MemberId
 
 	hung   int32 // set once an API call was seen blocking
 	seq    int64
@@ -586,13 +587,13 @@ func moduleGoroutineStacks() (int, []string) {
 }
 
 type rtParams struct {
-	seed      int64
-	ops       int
-	cancelAt  int // op index at which Run's context is cancelled (-1: only at the end)
-	garbage   bool
-	realTimer bool
-	churn     int  // rounds of (election, commit in the next view) after the probe
-	panicSync bool // the cancellation comes from inside a consumer block whose Height() then panics in the main loop
+	seed          int64
+	ops           int
+	cancelAt      int // op index at which Run's context is cancelled (-1: only at the end)
+	garbage       bool
+	realTimer     bool
+	churn         int  // rounds of (election, commit in the next view) after the probe
+	panicSync     bool // the cancellation comes from inside a consumer block whose Height() then panics in the main loop
 	consumerPanic bool // one commit callback of the run panics (consumer code crashes)
 	waitBlocked   bool // from cancelAt on: cancel at the first moment the worker sits in a consumer call (odd runs: real timer)
 	staleAtCancel bool // from cancelAt on: as soon as a commit callback is blocked, the election of its (height, view) fires, the
@@ -644,12 +645,16 @@ func (r *rt) flood() {
 	}
 }
 
+var rtRunLimit = 240 * time.Second
+var currentRt atomic.Value // *rt of the run in progress
+
 func runRuntime(p rtParams, runId int) []rtEvent {
 	rnd := newRand(p.seed)
 	cl := newCluster([]uint64{1, 1, 1, 1}, []int{0, 1, 2, 3}, 1, rnd.Intn(2) == 0) // no cluster nodes: every key is held by the harness
 	r := &rt{cl: cl, adv: newAdversary(cl), me: cl.ids[0], rnd: newRand(p.seed + 1), maxOkSync: -1, blocked: map[int]*blockedCall{}, proofs: map[int][]byte{}, elecCh: make(chan *interfaces.ElectionTrigger),
 		blockProb: map[string]int{"committee": rnd.Intn(30), "propose": rnd.Intn(60), "validate": rnd.Intn(60), "commit": rnd.Intn(40)}, ctxOnly: rnd.Intn(70)}
 	atomic.StoreInt32(&r.failCommit, int32(rnd.Intn(25)))
+	currentRt.Store(r)
 	if p.staleAtCancel {
 		r.blockProb["commit"] = 70
 	}
@@ -1045,11 +1050,32 @@ func cmdRuntime(args []string) int {
 				p.cancelAt = rnd.Intn(*ops / 2)
 			}
 		}
-		evs := runRuntime(p, i)
+		// a run takes a few seconds at most; one that does not end (the two loops deadlocked, an API call that never returns) is
+		// an outcome: what was logged so far is written, followed by a "hang" event, and the driver ends (exit 0: TLC judges)
+		done := make(chan []rtEvent, 1)
+		go func() { done <- runRuntime(p, i) }()
+		var evs []rtEvent
+		hung := false
+		select {
+		case evs = <-done:
+		case <-time.After(rtRunLimit):
+			hung = true
+			if r, _ := currentRt.Load().(*rt); r != nil {
+				r.mu.Lock()
+				evs = append([]rtEvent{}, r.events...)
+				r.mu.Unlock()
+				evs = append(evs, obj{"ev": "hang", "seq": atomic.AddInt64(&r.seq, 1)})
+			}
+		}
 		for _, e := range evs {
 			out.emit(e)
 		}
 		total += len(evs)
+		if hung {
+			out.close()
+			fmt.Printf("lines=%d runs=%d HANG in run %d\n", total, *runs, i)
+			os.Exit(0)
+		}
 	}
 	fmt.Printf("lines=%d runs=%d\n", total, *runs)
 	return 0
